@@ -18,6 +18,19 @@ CHECKS = {
         note="Bounds: alphabet 3, batches <=2 (3 thorough), <=6 (8) stored samples for the exhaustive part; "
              "trusted: TLC, the projection in vf/c04.py; finalise's evidence update is not part of this check.",
     ),
+    "C10": dict(
+        category="model_checking",
+        technique="TLA+ spec BatchEval.tla (all configurations x all pool execution orders) checked by TLC; "
+                  "every configuration replayed on the real batch_evaluate_function / Model.batch_evaluate_*",
+        text="TLC proves on the transcribed splitting rules that the calls partition the batch in order, each "
+             "point is evaluated once and the counter rises once, for every (n, chunksize, n_pool, vectorised, "
+             "pool) and every order in which a pool executes calls; each configuration is then executed on "
+             "the real functions with a recording function and a fake pool running calls in random order, "
+             "plus real fork pools.",
+        design_ref="DESIGN.md 4 C10",
+        note="Bounds n<=8 (12), chunksize<=9 (13), n_pool<=4 (5); Pool.map order preservation assumed; "
+             "worker scheduling of real pools exercised, not enumerated.",
+    ),
 }
 
 NOT_YET = {k: 'check not built yet (work in progress; see DESIGN.md 8 for the order of work)' for k in ['C01', 'C02', 'C03', 'C05', 'C09', 'C10', 'C11', 'C12', 'C13', 'C14', 'C15', 'C16', 'C17', 'C18', 'C19', 'C20']}
